@@ -592,6 +592,7 @@ class NearestNeighborModel(Model):
         onsite_terms = [None] * L  # onsite terms on each site `i`
         bond_XYZ = [None] * L  # svd of couplings on each bond (i-1, i)
         chis = [2] * (L + 1)
+        chinfo = sites[0].leg.chinfo
         assert len(self.H_bond) == L
         for i, Hb in enumerate(H_bond):
             if Hb is None:
@@ -615,7 +616,6 @@ class NearestNeighborModel(Model):
             if npc.norm(Hb) < tol_zero:
                 continue
             Hb = Hb.combine_legs([['p0', 'p0*'], ['p1', 'p1*']])
-            chinfo = Hb.chinfo
             qtotal = [chinfo.make_valid(), chinfo.make_valid()]  # zero charge
             X, Y, Z = npc.svd(Hb, cutoff=tol_zero, inner_labels=['wR', 'wL'], qtotal_LR=qtotal)
             assert len(Y) > 0
